@@ -302,6 +302,94 @@ func runC07(c *Ctx) {
 			c.Nontrivial("subject|" + text)
 		}
 	}
+	c07SubjectDomains(c)
+}
+
+// subject priority with a domain column: every domain has its own hierarchy (names are prefixed by the
+// domain of the grouping rule / of the policy rule's `dom` field), and rules of different domains are
+// interleaved in every order, so that a rule and the rule of the subject inheriting from it are separated by
+// rules of the other domain.  Loaded order and decisions vs the Lean model (sortBySubject with domIdx); on the
+// implementation: within a domain the inheriting subject's rule precedes the inherited one's (forests).
+func c07SubjectDomains(c *Ctx) {
+	ms := NewMSpec().AddR("r", "sub", "dom", "obj", "act").AddP("p", "sub", "dom", "obj", "act", "eft").AddG("g", 3).
+		AddE("e", "subjectPriority(p_eft) || deny").
+		AddM("m", "r", "p", And(G3("g", RTok(0), PTok(0), RTok(1)), Eq(RTok(1), PTok(1)), Eq(RTok(2), PTok(2)), Eq(RTok(3), PTok(3))))
+	rules := [][]string{{"a", "d1", "deny"}, {"a", "d2", "deny"}, {"b", "d1", "allow"}, {"c", "d2", "allow"}, {"b", "d2", "allow"}}
+	edges := [][]string{{"b", "a", "d1"}, {"c", "a", "d2"}, {"b", "a", "d2"}, {"c", "b", "d2"}}
+	maxLen := 4
+	if c.Thorough() {
+		maxLen = 5
+	}
+	var perms [][]int
+	var rec func(cur []int, used int)
+	rec = func(cur []int, used int) {
+		if len(cur) >= 2 {
+			perms = append(perms, append([]int(nil), cur...))
+		}
+		if len(cur) == maxLen {
+			return
+		}
+		for i := range rules {
+			if used&(1<<i) == 0 {
+				rec(append(cur, i), used|1<<i)
+			}
+		}
+	}
+	rec(nil, 0)
+	n := 0
+	for _, pm := range perms {
+		for mask := 1; mask < 1<<len(edges); mask++ {
+			n++
+			if !c.Thorough() && n%4 != int(c.Seed%4) {
+				continue
+			}
+			var lines []string
+			for _, i := range pm {
+				r := rules[i]
+				lines = append(lines, fmt.Sprintf("p, %s, %s, data1, read, %s", r[0], r[1], r[2]))
+			}
+			var es [][]string
+			for j, e := range edges {
+				if mask&(1<<j) != 0 {
+					es = append(es, e)
+					lines = append(lines, "g, "+e[0]+", "+e[1]+", "+e[2])
+				}
+			}
+			text := strings.Join(lines, "\n")
+			s := StartCase(c, ms, CaseOpts{})
+			op := EOp{Kind: "loadtext", What: "string", Text: text}
+			obs := s.ExecGuarded(op, 5*time.Second)
+			c.W.Op(op.Line(), obs)
+			c.Evals++
+			if obs == "hang" || obs == "panic" {
+				c.Direct("ordering a policy by subject hierarchy (with domains): "+obs, text)
+				continue
+			}
+			s.Do(c, EOp{Kind: "obs", Args: []string{"pol", "p", "p"}})
+			if strings.HasPrefix(obs, "ok") {
+				listed, _ := s.E.GetPolicy()
+				pos := map[string]int{}
+				for i, r := range listed {
+					pos[r[1]+"::"+r[0]] = i + 1
+				}
+				for _, e := range es {
+					child, parent := pos[e[2]+"::"+e[0]], pos[e[2]+"::"+e[1]]
+					// the edge set is a forest per domain except for {b->a, c->b} chains, which are still trees
+					if child != 0 && parent != 0 && child > parent {
+						c.Direct("after a load under the subject-priority effect (with domains) the rule of a subject comes after the rule of the subject it inherits from in that domain", fmt.Sprintf("%s\nlisted: %v (edge %v)", text, listed, e))
+					}
+				}
+				c.Count("subject_domain_order_checks", 1)
+			}
+			for _, nm := range []string{"a", "b", "c"} {
+				for _, d := range []string{"d1", "d2"} {
+					s.Do(c, EOp{Kind: "enf", Req: []V{VS(nm), VS(d), VS("data1"), VS("read")}})
+				}
+			}
+			c.Count("subject_domain_graphs", 1)
+			c.Nontrivial("subject-dom|" + text)
+		}
+	}
 }
 
 // isForest: no self loop, at most one parent per name, no cycle
